@@ -102,7 +102,7 @@ Definition empty_rec : lrec := {| rec_name := []; rec_luni := None |}.
 Definition name_write (a : sdesc * Z * option (list Z)) : list Z :=
   let '(d, pre, ans) := a in
   match set_name macroman_enc (sd_str d) empty_rec with
-  | Err e => [err_code e]
+  | Err e => dg [err_code e]
   | Ok r =>
       dg (0 :: Z.of_nat (length (rec_name r)) :: rec_name r ++ get_name r
             ++ canonW (write_name_part (onept (rec_name r) ans) pre r))
